@@ -56,6 +56,9 @@ type C07Case struct {
 	Keep bool `json:"keep,omitempty"`
 	// EOFData (via_conn): the last bytes arrive together with io.EOF
 	EOFData bool `json:"eof_with_data,omitempty"`
+	// Scratch: the sender fills ONE scratch buffer with each payload in turn and packs a slice of it (the usual way
+	// to build packets without allocating): consecutive packets then share their first byte's address
+	Scratch bool `json:"scratch,omitempty"`
 }
 
 // c07Recheck verifies retained packets after unrelated traffic went through the shared pools.
@@ -90,11 +93,20 @@ func c07Check(c C07Case) *pbt.Violation {
 	if c.ViaConn {
 		return c07CheckConn(c)
 	}
+	var scratch []byte
 	for i, f := range c.Frames {
 		if (i+len(c.Frames))%3 == 0 {
 			noisePacket()
 		}
 		p := pk.Packet{ID: f.ID, Data: f.payload()}
+		if c.Scratch {
+			if cap(scratch) < f.Len {
+				scratch = make([]byte, f.Len, 2*f.Len+64)
+			}
+			scratch = scratch[:f.Len]
+			copy(scratch, p.Data)
+			p.Data = scratch
+		}
 		orig := append([]byte{}, p.Data...)
 		offsets = append(offsets, stream.Len())
 		var err error
@@ -379,6 +391,9 @@ func genLen(t *rapid.T, thr int, id int32, allowHuge bool) int {
 			cands = append(cands, b-il+d, b-il-1+d) // total / data-length VarInt boundaries
 		}
 	}
+	for _, w := range []int{32768, 65536} { // id + payload fill exactly one or two inflate windows
+		cands = append(cands, w-il, w-il-1, w-il+1)
+	}
 	c := rapid.IntRange(0, 9).Draw(t, "lencls")
 	var n int
 	switch {
@@ -413,8 +428,17 @@ func genC07(t *rapid.T) C07Case {
 	n := rapid.IntRange(1, pbt.Pick(6, 50)).Draw(t, "nframes")
 	for i := 0; i < n; i++ {
 		id := genID(t)
-		c.Frames = append(c.Frames, C07Frame{ID: id, Len: genLen(t, c.Threshold, id, true), Kind: rapid.IntRange(0, 2).Draw(t, "kind"), Seed: rapid.Byte().Draw(t, "seed")})
+		f := C07Frame{ID: id, Len: genLen(t, c.Threshold, id, true), Kind: rapid.IntRange(0, 2).Draw(t, "kind"), Seed: rapid.Byte().Draw(t, "seed")}
+		if i > 0 && rapid.IntRange(0, 3).Draw(t, "samehead") == 0 {
+			// same id and same length as the packet before, other content
+			f.ID, f.Len = c.Frames[i-1].ID, c.Frames[i-1].Len
+			if f.Kind == c.Frames[i-1].Kind && f.Seed == c.Frames[i-1].Seed {
+				f.Seed++
+			}
+		}
+		c.Frames = append(c.Frames, f)
 	}
+	c.Scratch = rapid.IntRange(0, 2).Draw(t, "scratch") == 0
 	if len(c.Frames) > 0 && rapid.IntRange(0, 6).Draw(t, "lenthr") == 0 {
 		// threshold tied to the first payload's size
 		c.Threshold = c.Frames[0].Len + rapid.IntRange(-1, 1).Draw(t, "thrd")
